@@ -610,3 +610,75 @@ def rule_translation_corpus(rep: Report, repo: Repo):
     rep.count("disagreements_checked", checked + rep.analysed.get("disagreements_checked", 0))
     rep.count("corpus_programs", programs)
     rep.floor(R, "corpus programs compiled", programs, 30)
+
+
+# ---------------------------------------------------------------------------
+# run-time support of the generated code: _zero_sum, _safe_divide, the zero / one sentinels
+# ---------------------------------------------------------------------------
+
+
+def rule_runtime_support(rep: Report, repo: Repo):
+    R = "E9.runtime"
+    loc = lambda n: repo.loc("algorithm_parsing", n)
+    f = repo.find("algorithm_parsing::_zero_sum", R)
+    rets = [n for n in ast.walk(f) if isinstance(n, ast.Return)]
+    ok = False
+    if len(rets) == 1 and isinstance(rets[0].value, ast.Call) and call_name(rets[0].value) == "sum":
+        c = rets[0].value
+        kw = {k.arg: norm(k.value) for k in c.keywords}
+        start = kw.get("start") or (norm(c.args[1]) if len(c.args) > 1 else None)
+        g = c.args[0] if c.args else None
+        if isinstance(g, (ast.GeneratorExp, ast.ListComp)) and len(g.generators) == 1:
+            gen = g.generators[0]
+            v = norm(gen.target)
+            filt = [norm(i) for i in gen.ifs]
+            ok = start == "zero" and norm(g.elt) == v and norm(gen.iter) == "terms" and filt == [f"{v} is not zero"] \
+                and f.args.vararg is not None and f.args.vararg.arg == "terms"
+    rep.check(ok, R, "algorithm_parsing::_zero_sum adds every term that is not the `zero` sentinel, starting from `zero`",
+              norm(rets[0]) if rets else "", loc(f))
+    f = repo.find("algorithm_parsing::_safe_divide", R)
+    rets = [norm(n.value) for n in ast.walk(f) if isinstance(n, ast.Return)]
+    params = [a.arg for a in f.args.args]
+    ok = len(params) == 2 and rets and rets[0] == f"{params[0]} / {params[1]}" and \
+        all(r in (f"{params[0]} / {params[1]}", f"{params[0]} * (1 / {params[1]})") for r in rets)
+    rep.check(ok, R, "algorithm_parsing::_safe_divide returns numerator / denominator (or numerator * (1 / denominator))", str(rets), loc(f))
+    # sentinels (series.py)
+    tree = repo.trees["series"]
+    zero = [n for n in tree.body if isinstance(n, ast.ClassDef) and n.name == "Zero"]
+    if len(zero) != 1:
+        raise AnalysisError(R, "class Zero not found")
+    meths = {m.name: m for m in zero[0].body if isinstance(m, ast.FunctionDef)}
+    alias = {}
+    for n in zero[0].body:
+        if isinstance(n, ast.Assign) and isinstance(n.value, ast.Name):
+            for t in n.targets:
+                if isinstance(t, ast.Name):
+                    alias[t.id] = n.value.id
+    def body_ret(name):
+        m = meths.get(alias.get(name, name))
+        if m is None:
+            return None
+        r = [norm(x.value) for x in ast.walk(m) if isinstance(x, ast.Return)]
+        return r[0] if len(r) == 1 else None
+    want = {"__mul__": "self", "__add__": "other", "__sub__": "-other", "__neg__": "self", "adjoint": "self"}
+    for name, w in want.items():
+        got = body_ret(name)
+        rep.check(got == w, R, f"series::Zero.{name} returns `{w}`", f"found {got!r}: 0*x = 0, 0 + x = x, 0 - x = -x, -0 = 0, adj(0) = 0",
+                  repo.loc("series", zero[0]))
+    sing = {norm(n.targets[0]): norm(n.value) for n in tree.body if isinstance(n, ast.Assign) and isinstance(n.targets[0], ast.Name)}
+    rep.check(sing.get("zero") == "Zero()" and sing.get("one") == "One()" and sing.get("PENDING") == "Pending()", R,
+              "series: zero / one / PENDING are module-level singletons (compared by identity)", "", repo.loc("series", zero[0]))
+    cont = repo.find("series::BlockSeries::__contains__", R)
+    r = [norm(n.value) for n in ast.walk(cont) if isinstance(n, ast.Return)]
+    rep.check(r == ["self._data.get(item) is not zero"], R,
+              "series::BlockSeries.__contains__ is False exactly for elements known to be the `zero` sentinel",
+              "this is what lets `start = 0` pin an order and product_by_order skip absent terms", repo.loc("series", cont))
+    gi = repo.find("series::BlockSeries::__getitem__", R)
+    rr = [n for n in ast.walk(gi) if isinstance(n, ast.Return) and isinstance(n.value, ast.Call) and (call_name(n.value) or "").endswith("masked_where")]
+    ok = len(rr) == 1 and [norm(a) for a in rr[0].value.args] == ["_mask(result)", "result"]
+    mk = sing.get("_mask")
+    rep.check(ok and mk is not None and "entry is zero" in mk, R,
+              "series::BlockSeries.__getitem__ masks exactly the absent (`zero`) elements of a multi-element result", str(mk)[:80], repo.loc("series", gi))
+    dflt = repo.find("series::BlockSeries::__init__", R)
+    ev = [norm(n.value) for n in ast.walk(dflt) if isinstance(n, ast.Assign) and norm(n.targets[0]) == "self.eval"]
+    rep.check(ev == ["(lambda *_: zero) if eval is None else eval"], R, "series::BlockSeries default eval returns `zero` (absent term)", str(ev), repo.loc("series", dflt))
